@@ -15,7 +15,10 @@ import (
 )
 
 func readRules(input io.Reader) ([]rule, error) {
-	rules := defaultExclusions
+	// Work on a copy of the default rules: the loop below sets flags on the
+	// rules that precede a negation, and the defaults are shared by every
+	// caller (and by DefaultRuleset).
+	rules := append([]rule{}, defaultExclusions...)
 	scanner := bufio.NewScanner(input)
 	scanner.Split(bufio.ScanLines)
 	currentRuleIndex := len(defaultExclusions) - 1
